@@ -59,7 +59,7 @@ func (fr *frame) call(cc *ssa.CallCommon, st *State, site ssa.Value, pos token.P
 		return fr.builtin(b, cc, args, st, site, pos)
 	}
 	name := calleeName(cc)
-	fr.atCall(name, st, pos, cc, args)
+	fr.atCall(name, st, pos, cc, args, site)
 	fr.noteCall(name, st)
 	if cc.IsInvoke() {
 		recv := fr.val(cc.Value)
@@ -219,7 +219,7 @@ func (fr *frame) builtin(b *ssa.Builtin, cc *ssa.CallCommon, args []T, st *State
 		c.assume(st, le(IntLit(0), n))
 		return []T{n}
 	case "append":
-		return []T{fr.doAppend(cc, args, st)}
+		return []T{fr.doAppend(cc, args, st, site)}
 	case "copy":
 		// copy(dst, src): havoc dst elements
 		if sl, ok := under(cc.Args[0].Type()).(*types.Slice); ok {
@@ -278,7 +278,7 @@ func constSliceLen(v ssa.Value) (int64, bool) {
 	return 0, false
 }
 
-func (fr *frame) doAppend(cc *ssa.CallCommon, args []T, st *State) T {
+func (fr *frame) doAppend(cc *ssa.CallCommon, args []T, st *State, site ssa.Value) T {
 	c := fr.c
 	s, t := args[0], args[1]
 	sl := under(cc.Args[0].Type()).(*types.Slice)
@@ -298,6 +298,10 @@ func (fr *frame) doAppend(cc *ssa.CallCommon, args []T, st *State) T {
 	}
 	inplace := c.name("app_inplace", le(add(SLen(s), n), SCap(s)))
 	r := c.newObj(st, "arr")
+	if site != nil && !c.esc.valueEscapes(site) {
+		// the grown array of a slice no callee can reach is private as well
+		c.markPrivate(st, r)
+	}
 	newcap := c.fresh("newcap", "Int")
 	c.assume(st, le(add(SLen(s), n), newcap))
 	arr := c.name("app_arr", Ite(inplace, SArr(s), r))
@@ -305,6 +309,9 @@ func (fr *frame) doAppend(cc *ssa.CallCommon, args []T, st *State) T {
 	res := MkSlice(arr, off, add(SLen(s), n), Ite(inplace, SCap(s), newcap))
 	resN := c.name("app", res)
 	base := c.name("app_base", add(off, SLen(s)))
+	// bridge for quantifier instantiation: in place, the result slice and the
+	// source slice address the same elements
+	c.emit("(assert (=> %s (forall ((j Int)) (! (= (selem %s j) (selem %s j)) :pattern ((selem %s j))))))", inplace.S, resN.S, s.S, resN.S)
 	// leaf cells of one element: field-id paths below the element address
 	type leaf struct {
 		path []int
@@ -378,7 +385,7 @@ func (fr *frame) noteCall(name string, st *State) {
 }
 
 // atCall checks the `at call F requires e` clauses of the top-level contract.
-func (fr *frame) atCall(name string, st *State, pos token.Pos, cc *ssa.CallCommon, args []T) {
+func (fr *frame) atCall(name string, st *State, pos token.Pos, cc *ssa.CallCommon, args []T, site ssa.Value) {
 	c := fr.c
 	if c.topFrame == nil || c.topFrame.contract == nil {
 		return
@@ -388,6 +395,14 @@ func (fr *frame) atCall(name string, st *State, pos token.Pos, cc *ssa.CallCommo
 		return
 	}
 	env := c.topFrame.env(st)
+	if in, ok := site.(ssa.Instruction); ok && site != nil && fr == c.topFrame && in.Block() != nil {
+		env.atBlock = in.Block()
+		for i, x := range in.Block().Instrs {
+			if x == in {
+				env.atIdx = i
+			}
+		}
+	}
 	// the call's arguments are visible as arg0, arg1, ... (receiver first for
 	// static method calls)
 	for i, a := range args {
@@ -442,8 +457,14 @@ func (fr *frame) iteratorCall(ct *Contract, cc *ssa.CallCommon, args []T, st *St
 			}
 			return true
 		})
-		if c.loopAll[key] {
+		if c.loopAll[key] && !c.loopAllUnknown[key] {
+			c.rawHavoc = true
+			c.havocAllCallees(st, c.loopCallees[key])
+			c.rawHavoc = false
+		} else if c.loopAll[key] {
+			c.rawHavoc = true
 			c.havocAll(st)
+			c.rawHavoc = false
 		} else {
 			var names []string
 			for n := range c.loopWrites[key] {
@@ -454,7 +475,7 @@ func (fr *frame) iteratorCall(ct *Contract, cc *ssa.CallCommon, args []T, st *St
 				if n == HLockW || n == HLockR || n == HDefW || n == HDefR {
 					continue
 				}
-				if n == HAlloc {
+				if n == HAlloc || n == HPriv {
 					old := c.getHeap(st, n)
 					c.havocHeap(st, n)
 					nw := st.heaps[n]
